@@ -3,6 +3,9 @@
 
 package dtlcp
 
+// replayBitmapBits 位图的位数，也是有效窗口大小的上限
+const replayBitmapBits = 64
+
 // replayWindow DTLCP 重放保护滑动窗口
 // 基于 DTLS RFC 6347 Section 4.1.2.6
 type replayWindow struct {
@@ -20,13 +23,22 @@ func newReplayWindow(size int) *replayWindow {
 	return &replayWindow{size: size}
 }
 
+// span 有效窗口大小：位图只有 replayBitmapBits 位，
+// 配置值超出时按位图位数计（否则超出位图的序列号无法被记录，会被重复接受）
+func (w *replayWindow) span() uint48 {
+	if w.size > replayBitmapBits {
+		return replayBitmapBits
+	}
+	return uint48(w.size)
+}
+
 // check 检查序列号是否应接受
 // 返回 true 表示接受（新序列号，非重放）
 func (w *replayWindow) check(seq uint48) bool {
 	// 情况1：序列号大于右边缘 → 窗口右移
 	if seq > w.right {
 		diff := seq - w.right
-		if diff >= uint48(w.size) {
+		if diff >= w.span() {
 			// 跳跃超过窗口大小 → 清空位图
 			w.bitmap = 0
 		} else {
@@ -40,7 +52,7 @@ func (w *replayWindow) check(seq uint48) bool {
 
 	// 情况2：序列号在窗口左侧 → 拒绝
 	diff := w.right - seq
-	if diff >= uint48(w.size) {
+	if diff >= w.span() {
 		return false
 	}
 
